@@ -41,6 +41,8 @@ CLAIMS["C08"] = ("the resolver's acceptance table (per reader schema shape, whic
                  "static analysis: variant-partitioned path summaries of the resolver over MIR vs a specification table + call/def-use shape rules")
 CLAIMS["C09"] = ("the compatibility checker's verdict table over all schema shape pairs (which of 890 pairs answer Full on every path) cross-checked with the resolver's acceptance table and the decoder's value table: a Full verdict requires an error-free resolver cell; lattice (Full only from Full & Full); mutual_read evaluates both directions unconditionally; the specification's safe steps (numeric promotions, string/bytes, self-compatibility of unnamed shapes, defaulted reader fields, enum defaults, reader name then alias against writer names) are accepted; memo written only from the inner result keyed by both schemas",
                  "static analysis: variant-partitioned path summaries of checker x resolver x decoder over MIR + shape rules")
+CLAIMS["C10"] = ("serializer/parser agreement per node kind: every key written explicitly is structural for the parser (or withheld from the fixed's attribute loop by a re-verified skip list) and every structural key is written; the logicalType literal and base type written for each of the 16 logical shapes are the ones on which the parser builds that shape; namespace is written wherever name is; references are written as full names; the 8 primitive names map back to the same variant",
+                 "static analysis: literal/key tables of the serializers (variant-partitioned) vs the parser's structural-key sets and match arms over MIR")
 NA_DEFAULT = "check under construction in this round (see DESIGN.md); not yet claimed"
 
 
